@@ -18,7 +18,8 @@ LEVEL = 'other'
 RULE = ('corpus; then every public function of harness/catalog.py (all of mahotas.__all__ + submodule APIs) x argument tuples of the degenerate '
         'grammar: a valid call in which 1-3 arguments are replaced by ndim 0-5 arrays, zero-length axes, mismatched shapes/ranks between paired '
         'arguments, dtypes float16/complex/object/str/datetime/structured/longdouble, non-arrays, and extreme scalars (0, -1, +-2^31, 2^63, 2^64+1, '
-        'nan, inf, 1e300, None, str, list); isolated ASan workers, 20 s limit. Non-trivial = the call was rejected by an exception or returned; '
+        'nan, inf, 1e300, None, str, list); plus, directed, every array argument of every function in turn in the dtypes no kernel is instantiated for '
+        '(rest of the call valid); isolated ASan workers, 20 s limit. Non-trivial = the call was rejected by an exception or returned; '
         'distinct = distinct (function, mutation classes, argument specs).')
 ASSUMPTIONS = ['array VALUES are finite and moderate (the statement quantifies over dimensionality, dtype, size and scalar parameters, not over NaN/huge pixel values)',
                'legitimately expensive calls are excluded by the cost model `too_expensive` (documented per parameter), not by the timeout',
@@ -702,6 +703,29 @@ def cases(rng, tier):
             skipped += 1
             continue
         out.append(dict(kind='call', call=call, muts=[list(m) for m in muts], valid=valid))
+    # directed: every array argument of every function, in turn, in dtypes no kernel is instantiated for, the rest of
+    # the call valid (optional arguments present or absent as the valid-call generator draws them): the "type not
+    # understood" exits of the native code are error paths of their own, with their own clean-up
+    reps, ndt = dict(quick=(2, 3), thorough=(4, len(catalog.DEGENERATE_DTYPES)), search=(2, 4))[tier]
+    for fn in fns:
+        names, opt = param_names(fn)
+        for _ in range(reps):
+            valid = catalog.valid_call(rng, fn, maxlen=8, cap=300)
+            slots = [('args', i_) for i_, a in enumerate(valid['args']) if 'a' in a] + \
+                    [('kw', k_) for k_, a in valid['kw'].items() if 'a' in a]
+            for where, key in slots:
+                for dt in rng.sample(catalog.DEGENERATE_DTYPES, ndt):
+                    call = json.loads(json.dumps(valid))
+                    d = call[where][key]['a']
+                    d['dtype'] = dt
+                    if d.get('fill') in ('limits', 'float', 'unit', 'signed', 'labels', 'bool'):
+                        d['fill'] = 'rand'
+                    d.pop('hi', None)
+                    pname = key if where == 'kw' else (names[key] if key < len(names) else 'arg%d' % key)
+                    if too_expensive(call):
+                        continue
+                    out.append(dict(kind='call', call=call, valid=valid,
+                                    muts=[[pname, 'dtype:' + (dt if isinstance(dt, str) else 'structured')]]))
     # valid calls at the corners of the documented domain (no mutation): they must not crash either
     for call in catalog.directed_extreme_calls(rng):
         out.append(dict(kind='call', call=call, muts=[], valid=call))
